@@ -21,7 +21,7 @@ ASSUMPTIONS = ['membership witnesses (Glushkov simulation, Python re) agree or t
                'references to externally declared entities, no ENTITY attributes naming externally declared unparsed entities)',
                'metamorphic clause (events equal with validation on/off) is not asserted where the document has character data in element-only or EMPTY '
                'content (Xerces deliberately drops it when validating) or an undeclared element']
-BUDGET = {'quick': 520, 'thorough': 6000}
+BUDGET = {'quick': 520, 'thorough': 3600}
 WALLCAP = {'quick': 500, 'thorough': 2400}
 
 APIS = ['sax2', 'dom']
@@ -78,6 +78,11 @@ def meta_norm(rest):
 
 def check_case(case, ex):
     """-> (ok, detail)"""
+    if case['lane'] == 'bundle':          # regress/C07/bundle.json: many small saved cases replayed in one executor
+        for sub in case['cases']:
+            ok, detail = check_case(sub, ex)
+            if not ok: return False, 'regression case %s: %s' % (sub.get('name'), detail)
+        return True, 'ok (%d cases)' % len(case['cases'])
     for api in APIS:
         for sc in SCANNERS:
             cfg = '%s/%s/ns=%d' % (api, sc, case['ns'])
@@ -257,7 +262,12 @@ def worker(ctx):
         bump(hist_a, ('nondeterministic' if g['cm'][0] == 'CH' and not det else g['cm'][0]) + '/names=%d' % len(g['alphabet']))
         if nontriv: st_.sample({'lane': 'A', 'model': case['model'], 'L': g['L'], 'alphabet': g['alphabet'], 'sequences': len(case['rows']), 'rejected': nrej}, limit=2)
         ok, detail = check_case(case, ex)
-        if not ok: raise PropertyFailure(case, detail)
+        if not ok: fail(case, detail)
+
+    def fail(case, detail):
+        # evaluation count at which this worker first saw a failure (sensitivity runs read it from the evidence)
+        if 'first_failure_at_evaluation' not in st_.extra: st_.extra['first_failure_at_evaluation'] = [st_.evaluations]
+        raise PropertyFailure(case, detail)
 
     def prop_bc(g):
         case = build_bc(g, st_)
@@ -280,7 +290,7 @@ def worker(ctx):
         st_.note(xv.sha([case['doc_b64'], case['files_b64'], case['ns']]), nontriv, sorted(labels))
         if g['lane'] == 'C' and case['classes']: st_.sample({'lane': 'C', 'injected': g['injected'], 'classes': case['classes'], 'doc': g['text'][:400]})
         ok, detail = check_case(case, ex)
-        if not ok: raise PropertyFailure(case, detail)
+        if not ok: fail(case, detail)
 
     na = max(4, ctx.budget // 13)
     hyp_run(ctx, lane_a(ctx.tier), prop_a, na, batches=2, seed_salt=7)
